@@ -264,8 +264,17 @@ def check_connector_cancel(eng, run):
     ac = ci.methods.get("aclose")
     if ac is None:
         raise AnalysisError("anchor vanished: AsyncTCPNetworkClient.aclose")
-    an = AtomicSection(eng, None, lambda node: isinstance(node, ast.Call) and isinstance(node.func, ast.Attribute) and node.func.attr == "cancel" and "connector" in (dotted(node.func.value) or ""),
-                       armed_at_entry=True)
+    from sa.analyses.buffers import through_local
+
+    def cancels_connector(node):
+        if not (isinstance(node, ast.Call) and isinstance(node.func, ast.Attribute) and node.func.attr == "cancel"):
+            return False
+        d = dotted(node.func.value) or ""
+        root = d.split(".")[0]
+        v = through_local(ac, ast.Name(id=root, ctx=ast.Load())) if root != ac.self_name else None
+        return "connector" in d or (v is not None and "connector" in (dotted(v) or ""))
+
+    an = AtomicSection(eng, None, cancels_connector, armed_at_entry=True)
     Interp(an, ac).run()
     if not an.ends:
         raise AnalysisError("anchor vanished: connector scope cancel in AsyncTCPNetworkClient.aclose")
@@ -328,6 +337,8 @@ def check_twice(eng, run, registry):
             if isinstance(n, ast.Call) and (dotted(n.func) or "").split(".")[-1] == "shield":
                 for a in n.args:
                     shield_args.add(id(a))
+                    from sa.analyses.buffers import through_local
+                    shield_args.add(id(through_local(fn, a)))  # `w = self._get_waiter(); await shield(w)`
         for n in own_nodes(fn.node):
             if isinstance(n, ast.Call) and isinstance(n.func, ast.Attribute) and n.func.attr in getters:
                 n_sites += 1
